@@ -52,7 +52,12 @@ func c08Specs(tier string, seed int) []c08Spec {
 						if i%3 == 0 {
 							b.Soil = "sand20"
 						}
-						out = append(out, c08Spec{Base: b, Lat: lat, Sun: i%2 == 0, Alpha: c08Alpha, D: d})
+						alpha := c08Alpha
+						if et == 5 {
+							// reference ET read from the weather file: missing, negative and very large readings
+							alpha = append(append([]string{}, c08Alpha[:4]...), "et0-missing", "et0-negative", "et0-huge")
+						}
+						out = append(out, c08Spec{Base: b, Lat: lat, Sun: i%2 == 0, Alpha: alpha, D: d})
 					}
 				}
 			}
